@@ -15,6 +15,7 @@ SV = 'struct S_ZTSSt17basic_string_viewIDuSt11char_traitsIDuEE'
 def auto_models(j, skip=()):
     text, used = '', []
     svinc = False
+    flinc = False
     for s in j['std_stubs']:
         q, n = s['qualified'], s['name']
         if n in skip:
@@ -46,6 +47,35 @@ def auto_models(j, skip=()):
                 text += '#include "svmodel.h"\n'; svinc = True
             text += '/* assumed: u8string_view comparison is bytewise lexicographic (svmodel.h) */\n%s %s(%s) { %s }\n' % (s['ret'], n, s['params'], svm)
             used.append('u8string_view ==, <=>, compare = bytewise lexicographic order')
+            continue
+        flm = None
+        if re.match(r'std::forward_list<.*>::(before_begin|cbefore_begin)$', q) and len(ps) == 1:
+            flm = '%s r; __builtin_memset(&r, 0, sizeof r); *(void**)&r = %s; return r;' % (s['ret'], ps[0][1])
+        elif re.match(r'std::forward_list<.*>::c?begin$', q) and len(ps) == 1:
+            flm = '%s r; __builtin_memset(&r, 0, sizeof r); *(void**)&r = fl_begin_of(%s); return r;' % (s['ret'], ps[0][1])
+        elif re.match(r'std::forward_list<.*>::c?end$', q) and len(ps) == 1:
+            flm = '%s r; __builtin_memset(&r, 0, sizeof r); return r;' % s['ret']
+        elif re.match(r'std::_Fwd_list_(const_)?iterator<.*>::operator\*$', q) and len(ps) == 1:
+            flm = '__CPROVER_assert(*(void**)%s != 0, "forward_list model: dereference of a valid iterator"); return (%s)*(void**)%s;' % (ps[0][1], s['ret'], ps[0][1])
+        elif re.match(r'std::_Fwd_list_(const_)?iterator<.*>::operator->$', q) and len(ps) == 1:
+            flm = 'return (%s)*(void**)%s;' % (s['ret'], ps[0][1])
+        elif q == 'std::distance' and len(ps) == 2 and '_Fwd_list_' in ps[0][0]:
+            flm = ('void* pa = *(void**)&%s; void* pb = *(void**)&%s; int sa, sb; if (pa == 0) { __CPROVER_assert(pb == 0, "forward_list model: distance(end, x)"); return 0; } '
+                   'long ia = fl_locate(pa, &sa); __CPROVER_assert(ia >= 0, "forward_list model: distance from a valid iterator"); long ib = pb ? fl_locate(pb, &sb) : fl_count[sa]; return ib - ia;' % (ps[0][1], ps[1][1]))
+        elif q == 'std::advance' and len(ps) == 2 and '_Fwd_list_' in ps[0][0]:
+            flm = ('void* p = *(void**)%s; int sl; if (%s == 0) return; __CPROVER_assert(p != 0, "forward_list model: advance of a valid iterator"); long i = fl_locate(p, &sl); '
+                   '__CPROVER_assert(i >= 0 && i + %s <= fl_count[sl], "forward_list model: advance stays within the list"); *(void**)%s = (i + %s < fl_count[sl]) ? fl_elem[sl][i + %s] : (void*)0;' % (ps[0][1], ps[1][1], ps[1][1], ps[0][1], ps[1][1], ps[1][1]))
+        elif q in ('std::operator==', 'std::operator!=') and len(ps) == 2 and '_Fwd_list_' in ps[0][0] and '_Fwd_list_' in ps[1][0]:
+            deref = lambda p: ('*(void**)%s' % p[1]) if p[0].rstrip().endswith('*') else ('*(void**)&%s' % p[1])
+            flm = 'return %s %s %s;' % (deref(ps[0]), q[-2:], deref(ps[1]))
+        elif re.match(r'std::_Fwd_list_(const_)?iterator<.*>::operator\+\+$', q) and len(ps) == 1:
+            flm = ('void* p = *(void**)%s; int sl; long i = fl_locate(p, &sl); __CPROVER_assert(i >= 0, "forward_list model: increment of a valid iterator"); *(void**)%s = (i + 1 < fl_count[sl]) ? fl_elem[sl][i + 1] : (void*)0; return (%s)%s;'
+                   % (ps[0][1], ps[0][1], s['ret'], ps[0][1]))
+        if flm:
+            if not flinc:
+                text += '#include "flmodel.h"\n'; flinc = True
+            text += '/* assumed: std::forward_list as a sequence of never-moving elements (flmodel.h) */\n%s %s(%s) { %s }\n' % (s['ret'], n, s['params'], flm)
+            used.append('std::forward_list = finite sequence, iterators designate elements, elements never move (harness/flmodel.h)')
             continue
         if q == 'std::char_traits<char8_t>::length' and len(ps) == 1:
             text += '/* assumed: char_traits::length = number of characters before the terminating NUL (strings of the library are short literals) */\n'
